@@ -26,6 +26,9 @@ func NewLegacy(w http.ResponseWriter) (*LegacyPKT, error) {
 	hj, ok := w.(http.Hijacker)
 	if ok {
 		conn, rw, err := hj.Hijack()
+		if err != nil {
+			return nil, err
+		}
 		l := &LegacyPKT{
 			Conn:          conn,
 			ChunkedReader: httputil.NewChunkedReader(rw.Reader),
